@@ -184,6 +184,8 @@ def dirs_hooks(which):
             want = st['arg'] if which == 'main' else st['found']
             vm.oblige('call.dirname:of the file that is going to be processed', args[0] is want, 'call', vm.cur_line)
             return st['dirname']
+        if name.startswith('os.path.'):
+            return vm.fresh_ref(name.replace('.', '_'), None)   # any other path computation: an unknown path (no clause relies on it)
         return NotImplemented
 
     def callee_process_file(vm, args, kwargs):
